@@ -216,8 +216,15 @@ def check(recipe, mode):
     elif f32:
         # the library default (rtol=atol=1e-6) is at the float32 round-off level: judge with the achievable bound
         pass
-    with Config(**cfg):
-        inv = must_not_raise('inverse', lambda: A.I)
+    if sv is not None and p[0] % 2 == 0:
+        # nested blocks: the outer one sets the solver, the inner one only silences the callback (inherits the solver)
+        with Config(solver=cfg['solver']):
+            with Config(solver_callback=ops._quiet_cb):
+                inv = must_not_raise('inverse', lambda: A.I)
+        classes.append('nested_config')
+    else:
+        with Config(**cfg):
+            inv = must_not_raise('inverse', lambda: A.I)
     if not St.same_structure(den.out_S, inv.in_structure()) or not St.same_structure(den.in_S, inv.out_structure()):
         raise Violation('I-structure', 'structures of the lazy inverse are not the swapped ones')
     Minv = np.linalg.inv(M)
